@@ -349,9 +349,17 @@ func (u *Unit) condOperand(e ast.Expr) string {
 		if v, ok := u.Info.Uses[id].(*types.Var); ok && !v.IsField() && u.paramShape(v) == "" {
 			ds := u.reachingDefs(v, e)
 			if len(ds) == 1 && ds[0].rhs != nil {
-				if _, isCall := ast.Unparen(ds[0].rhs).(*ast.CallExpr); isCall {
+				switch rhs := ast.Unparen(ds[0].rhs).(type) {
+				case *ast.CallExpr:
 					if as, ok := ds[0].node.(*ast.AssignStmt); !ok || len(as.Lhs) == 1 {
-						return u.shapeOf(ds[0].rhs)
+						return u.shapeOf(rhs)
+					}
+				case *ast.SelectorExpr:
+					// a field copied into a local (`n := dto.N; if n == nil`) is still that field
+					if fv, ok := u.Info.Uses[rhs.Sel].(*types.Var); ok && fv.IsField() {
+						if as, ok := ds[0].node.(*ast.AssignStmt); !ok || len(as.Lhs) == len(as.Rhs) {
+							return u.shapeOf(rhs)
+						}
 					}
 				}
 			}
